@@ -417,8 +417,8 @@ func genE2E(r *c.Rng) *Case {
 			return TD{Kind: 1, T: T{Rel: true, Off: addSat(startOff, aim())}}
 		case 6:
 			return TD{Kind: 1, T: c.Pick(r, absTimes[2:])}
-		case 7:
-			if s := wrapWitness(mn, addSat(mx, k.Backdate), int64(1+r.Intn(13)), int64(r.Intn(80000))); s != 0 && k.Kind == "ssh" {
+		case 7: // the overflow family (SSH: D6; X.509: a wrapping seconds→nanoseconds product)
+			if s := pickWitness(r, mn, addSat(mx, k.Backdate), 13); s != 0 {
 				return TD{Kind: 1, T: T{Rel: true, Off: startOff, Sec: int64(s)}}
 			}
 		}
@@ -426,9 +426,19 @@ func genE2E(r *c.Rng) *Case {
 	}
 	if k.Kind == "x509" {
 		k.SNB = genStart()
+		if k.SNB.Kind == 1 && !k.SNB.T.Rel && r.Chance(1, 2) {
+			k.SNB, startOff = TD{}, 0
+		}
 		k.SNA = genEnd()
 		if k.SNA.Kind == 2 { // relative notAfter counts from the effective notBefore
 			k.SNA.D = addSat(k.SNA.D, -startOff)
+		}
+		if r.Chance(1, 12) { // overflow family with the start pushed into the past (year ≥ 0 ⇒ at most 3 wraps)
+			if s := pickWitness(r, mn, addSat(mx, k.Backdate), 3); s != 0 {
+				end := c.Pick(r, []int64{hr, min, dy, 10 * sec})
+				k.SNA = TD{Kind: 1, T: T{Rel: true, Off: end}}
+				k.SNB = TD{Kind: 1, T: T{Rel: true, Off: end, Sec: -int64(s)}}
+			}
 		}
 	} else {
 		if r.Chance(1, 3) {
@@ -471,6 +481,10 @@ func cornerE2E() []*Case {
 		{Renew: &RenewCase{Kind: "x509", Prov: "x5c", Backdate: min, Renew: true, LNB: T{Rel: true, Off: -hr}, LNA: T{Rel: true, Off: hr}}},
 		{Renew: &RenewCase{Kind: "ssh", Prov: "jwk", CType: 1, Backdate: min, Renew: true}},
 		{Renew: &RenewCase{Kind: "ssh", Prov: "x5c", CType: 2, Backdate: min, Renew: true, LNB: T{Rel: true, Off: -hr}, LNA: T{Rel: true, Off: hr}}},
+		// X.509 overflow family through the real endpoints (must be refused)
+		{Renew: &RenewCase{Kind: "x509", Prov: "jwk", Backdate: min, SNB: TD{Kind: 1, T: T{Rel: true}}, SNA: TD{Kind: 1, T: T{Rel: true, Sec: 18446744074 + 3600}}}},
+		{Renew: &RenewCase{Kind: "x509", Prov: "jwk", Backdate: min, SNB: TD{Kind: 1, T: T{Rel: true}}, SNA: TD{Kind: 1, T: T{Rel: true, Sec: 3*18446744074 + 3600}}}},
+		{Renew: &RenewCase{Kind: "x509", Prov: "jwk", Backdate: min, SNB: TD{Kind: 1, T: T{Rel: true, Off: hr, Sec: -(18446744074 + 3600)}}, SNA: TD{Kind: 1, T: T{Rel: true, Off: hr}}}},
 		// D6 / D7 regression through the real endpoints
 		{Renew: &RenewCase{Kind: "ssh", Prov: "jwk", CType: 1, Backdate: min, UVA: TD{Kind: 1, T: T{Rel: true}}, UVB: TD{Kind: 1, T: T{Rel: true, Sec: 18446744374}}}},
 		{Renew: &RenewCase{Kind: "ssh", Prov: "jwk", CType: 1, Backdate: min, UVA: TD{Kind: 1, T: T{Sec: unixToInternal - 315619200}}}},
